@@ -36,31 +36,65 @@ type node struct {
 	pick  func(dom []any) reps
 	cSize int // how many values the third operand ranges over
 
+	// mkFuncs constructs the library's instances ANEW (eq-package instance, hash-package instance,
+	// all their component instances) and returns them type-erased. The law family builds one per
+	// execution; the history family keeps one alive over a sequence of calls and compares it with
+	// freshly constructed ones.
+	mkFuncs  func() funcs
+	hashable bool                // the expression has a hash-package instance too
+	ref      func(a, b any) bool // reference: component-wise equality
+	// mut writes into the referent of v IN PLACE (same address, new contents; pick selects which
+	// contents): *p = .., s[0] = .., m["a"] = ..; composite values pass it to their first mutable
+	// component. It returns false when v has no mutable referent (nil, empty, immutable type).
+	mut func(v any, pick int) bool
+	// histOperands chooses the three operands of the history family (nil = the representatives)
+	histOperands func(dom []any, r reps) []any
+	histOps      []histOp
+	mutable      bool // some operand of the history family has a mutable referent
+	show         func(a any) string
+	memo         map[string]string
+	known        map[string]bool
+}
+
+// funcs is one constructed instance pair with its type erased.
+type funcs struct {
 	eqv   func(a, b any) bool // eq-package instance
 	heqv  func(a, b any) bool // hash-package instance, Eqv (nil = no Hashable)
 	hashf func(a any) uint32  // hash-package instance, Hash
-	ref   func(a, b any) bool // reference: component-wise equality
-	show  func(a any) string
-	memo  map[string]string
-	known map[string]bool
 }
 
-// inst is the typed shell used to hand the library's instance to the next combinator.
+// inst is the typed shell used to hand the library's instance to the next combinator: factories,
+// so that every construction of an enclosing instance constructs its components anew.
 type inst[T any] struct {
-	n    *node
-	eq   fp.Eq[T]
-	hash fp.Hashable[T]
+	n      *node
+	mkEq   func() fp.Eq[T]
+	mkHash func() fp.Hashable[T] // nil = no Hashable
 }
 
-func (n *node) hasHash() bool { return n.hashf != nil }
+func (n *node) hasHash() bool { return n.hashable }
 
-func finish[T any](n *node, e fp.Eq[T], h fp.Hashable[T]) *inst[T] {
-	n.eqv = func(a, b any) bool { return e.Eqv(a.(T), b.(T)) }
-	if h != nil {
-		n.heqv = func(a, b any) bool { return h.Eqv(a.(T), b.(T)) }
-		n.hashf = func(a any) uint32 { return h.Hash(a.(T)) }
+func finish[T any](n *node, mkEq func() fp.Eq[T], mkHash func() fp.Hashable[T]) *inst[T] {
+	n.hashable = mkHash != nil
+	n.mkFuncs = func() funcs {
+		e := mkEq()
+		f := funcs{eqv: func(a, b any) bool { return e.Eqv(a.(T), b.(T)) }}
+		if mkHash != nil {
+			h := mkHash()
+			f.heqv = func(a, b any) bool { return h.Eqv(a.(T), b.(T)) }
+			f.hashf = func(a any) uint32 { return h.Hash(a.(T)) }
+		}
+		return f
 	}
-	return &inst[T]{n, e, h}
+	return &inst[T]{n, mkEq, mkHash}
+}
+
+// finishV: instances that are package variables of the library (there is only one of each).
+func finishV[T any](n *node, e fp.Eq[T], h fp.Hashable[T]) *inst[T] {
+	var mh func() fp.Hashable[T]
+	if h != nil {
+		mh = func() fp.Hashable[T] { return h }
+	}
+	return finish(n, func() fp.Eq[T] { return e }, mh)
 }
 
 // reps are the values of a type that an enclosing combinator builds its own domain from.
@@ -170,9 +204,10 @@ outer:
 func (n *node) law(fam string, ia, ib, ic int) (law, msg string) {
 	dom, _ := n.fresh() // the operands of this execution
 	a, b, c := dom[ia], dom[ib], dom[ic]
-	e := n.eqv
+	f := n.mkFuncs() // instances constructed for this execution
+	e := f.eqv
 	if fam == "hash" {
-		e = n.heqv
+		e = f.heqv
 	}
 	defer func() {
 		if r := recover(); r != nil {
@@ -191,7 +226,7 @@ func (n *node) law(fam string, ia, ib, ic int) (law, msg string) {
 	// the Hashable contract is stated in terms of the instance's own Eqv, so it is looked at
 	// before Eqv is compared with the reference
 	if fam == "hash" {
-		ha, ha2, hb := n.hashf(a), n.hashf(a), n.hashf(b)
+		ha, ha2, hb := f.hashf(a), f.hashf(a), f.hashf(b)
 		if ha != ha2 {
 			return "hash-deterministic", fmt.Sprintf("hash.%s: Hash(a) returned %d then %d for a=%s", n.name, ha, ha2, n.show(a))
 		}
@@ -283,17 +318,17 @@ func anys[T any](s []T) []any {
 
 func given[T comparable](tname string, dom []T) *inst[T] {
 	n := newNode("Given["+tname+"]", fixed(dom), func(a, b any) bool { return a.(T) == b.(T) }, showNum)
-	return finish[T](n, eq.Given[T](), nil)
+	return finish[T](n, eq.Given[T], nil)
 }
 
 func number[T fp.ImplicitNum](tname string, dom []T) *inst[T] {
 	n := newNode("Number["+tname+"]", fixed(dom), func(a, b any) bool { return a.(T) == b.(T) }, showNum)
-	return finish(n, eq.Given[T](), hash.Number[T]())
+	return finish(n, eq.Given[T], hash.Number[T])
 }
 
 func baseString() *inst[string] {
 	n := newNode("String", fixed([]string{"", "a", "b", "ab", "ba"}), func(a, b any) bool { return a.(string) == b.(string) }, func(v any) string { return fmt.Sprintf("%q", v) })
-	return finish(n, eq.String, hash.String)
+	return finishV(n, eq.String, hash.String)
 }
 
 func baseBytes() *inst[[]byte] {
@@ -323,7 +358,15 @@ func baseBytes() *inst[[]byte] {
 			return fmt.Sprint(v)
 		})
 	n.pick = pickAliasing
-	return finish(n, eq.Bytes, hash.Bytes)
+	n.mut = func(v any, pick int) bool {
+		b := v.([]byte)
+		if len(b) == 0 {
+			return false
+		}
+		b[0] = byte(1 + pick)
+		return true
+	}
+	return finishV(n, eq.Bytes, hash.Bytes)
 }
 
 func baseTime() *inst[time.Time] {
@@ -336,19 +379,19 @@ func baseTime() *inst[time.Time] {
 			return a.Unix() == b.Unix() && a.Nanosecond() == b.Nanosecond()
 		},
 		func(v any) string { return v.(time.Time).Format(time.RFC3339Nano) })
-	return finish[time.Time](n, eq.Time, nil)
+	return finishV[time.Time](n, eq.Time, nil)
 }
 
 func baseHNil() *inst[hlist.Nil] {
 	n := newNode("HNil", fixed([]hlist.Nil{{}, hlist.Empty()}), func(a, b any) bool { return true }, func(any) string { return "HNil" })
-	return finish(n, eq.HNil, hash.HNil)
+	return finishV(n, eq.HNil, hash.HNil)
 }
 
 // user-supplied functions through eq.New / hash.New
 func baseNew() *inst[int] {
-	e := eq.New(func(a, b int) bool { return a%3 == b%3 })
+	mkE := func() fp.Eq[int] { return eq.New(func(a, b int) bool { return a%3 == b%3 }) }
 	n := newNode("New[int mod 3]", fixed([]int{0, 1, 2, 3, 4, 6}), func(a, b any) bool { return a.(int)%3 == b.(int)%3 }, showNum)
-	return finish(n, e, hash.New(e, func(a int) uint32 { return uint32(a % 3) }))
+	return finish(n, mkE, func() fp.Hashable[int] { return hash.New(mkE(), func(a int) uint32 { return uint32(a % 3) }) })
 }
 
 // ---------- combinators: the typed part only converts between T and its components ----------
@@ -369,11 +412,15 @@ func optionOf[T any](k *inst[T]) *inst[fp.Option[T]] {
 		return nil, false
 	}
 	n := newNode("Option", mk, optRef(k.n, get), optShow(k.n, get, "None", "Some(", ")"), k.n)
-	var h fp.Hashable[fp.Option[T]]
-	if k.hash != nil {
-		h = hash.Option(k.hash)
+	n.mut = func(v any, pick int) bool {
+		e, ok := get(v)
+		return ok && k.n.doMut(e, pick)
 	}
-	return finish(n, eq.Option(k.eq), h)
+	var mh func() fp.Hashable[fp.Option[T]]
+	if k.mkHash != nil {
+		mh = func() fp.Hashable[fp.Option[T]] { return hash.Option(k.mkHash()) }
+	}
+	return finish(n, func() fp.Eq[fp.Option[T]] { return eq.Option(k.mkEq()) }, mh)
 }
 
 func optRef(k *node, get func(any) (any, bool)) func(a, b any) bool {
@@ -453,6 +500,15 @@ func listShow(k *node, split func(any) ([]any, bool)) func(any) string {
 
 func splitSlice[T any](s []T) ([]any, bool) { return anys(s), s == nil }
 
+// writeFirst: s[0] = x or y of the element type (same array, new contents)
+func writeFirst[T any](k *node, s []T, pick int) bool {
+	if len(s) == 0 {
+		return false
+	}
+	s[0] = k.freshReps().at(2 * pick).(T)
+	return true
+}
+
 func seqOf[T any](k *inst[T]) *inst[fp.Seq[T]] {
 	mk := func() []any {
 		var dom []any
@@ -464,11 +520,12 @@ func seqOf[T any](k *inst[T]) *inst[fp.Seq[T]] {
 	split := func(v any) ([]any, bool) { return splitSlice[T](v.(fp.Seq[T])) }
 	n := newNode("Seq", mk, listRef(k.n, split), listShow(k.n, split), k.n)
 	n.pick = pickAliasing
-	var h fp.Hashable[fp.Seq[T]]
-	if k.hash != nil {
-		h = hash.Seq(k.hash)
+	n.mut = func(v any, pick int) bool { return writeFirst[T](k.n, v.(fp.Seq[T]), pick) }
+	var mh func() fp.Hashable[fp.Seq[T]]
+	if k.mkHash != nil {
+		mh = func() fp.Hashable[fp.Seq[T]] { return hash.Seq(k.mkHash()) }
 	}
-	return finish(n, eq.Seq(k.eq), h)
+	return finish(n, func() fp.Eq[fp.Seq[T]] { return eq.Seq(k.mkEq()) }, mh)
 }
 
 func sliceOf[T any](k *inst[T]) *inst[[]T] {
@@ -476,11 +533,12 @@ func sliceOf[T any](k *inst[T]) *inst[[]T] {
 	split := func(v any) ([]any, bool) { return splitSlice[T](v.([]T)) }
 	n := newNode("Slice", mk, listRef(k.n, split), listShow(k.n, split), k.n)
 	n.pick = pickAliasing
-	var h fp.Hashable[[]T]
-	if k.hash != nil {
-		h = hash.Slice(k.hash)
+	n.mut = func(v any, pick int) bool { return writeFirst[T](k.n, v.([]T), pick) }
+	var mh func() fp.Hashable[[]T]
+	if k.mkHash != nil {
+		mh = func() fp.Hashable[[]T] { return hash.Slice(k.mkHash()) }
 	}
-	return finish(n, eq.Slice(k.eq), h)
+	return finish(n, func() fp.Eq[[]T] { return eq.Slice(k.mkEq()) }, mh)
 }
 
 func ptrTo[T any](v any) any { t := v.(T); return &t }
@@ -502,21 +560,32 @@ func ptrNode[T any](head string, k *node) *node {
 		}
 		return *p, true
 	}
-	return newNode(head, mk, optRef(k, get), optShow(k, get, "nil", "&", ""), k)
+	n := newNode(head, mk, optRef(k, get), optShow(k, get, "nil", "&", ""), k)
+	n.mut = func(v any, pick int) bool { // *p = x or y of the pointee type (same address)
+		p := v.(*T)
+		if p == nil {
+			return false
+		}
+		*p = k.freshReps().at(2 * pick).(T)
+		return true
+	}
+	// operands of the history family: two pointers to equal targets and one to a different target
+	n.histOperands = func(dom []any, r reps) []any { return []any{dom[1], dom[2], dom[4]} }
+	return n
 }
 
 func ptrOf[T any](k *inst[T]) *inst[*T] {
 	n := ptrNode[T]("Ptr", k.n)
-	var h fp.Hashable[*T]
-	if k.hash != nil {
-		h = hash.Ptr(lazy.Call(func() fp.Hashable[T] { return k.hash }))
+	var mh func() fp.Hashable[*T]
+	if k.mkHash != nil {
+		mh = func() fp.Hashable[*T] { return hash.Ptr(lazy.Call(func() fp.Hashable[T] { return k.mkHash() })) }
 	}
-	return finish(n, eq.Ptr(lazy.Call(func() fp.Eq[T] { return k.eq })), h)
+	return finish(n, func() fp.Eq[*T] { return eq.Ptr(lazy.Call(func() fp.Eq[T] { return k.mkEq() })) }, mh)
 }
 
 // PtrGiven has no counterpart in hash.
 func ptrGivenOf[T comparable](k *inst[T]) *inst[*T] {
-	return finish[*T](ptrNode[T]("PtrGiven", k.n), eq.PtrGiven[T](), nil)
+	return finish[*T](ptrNode[T]("PtrGiven", k.n), eq.PtrGiven[T], nil)
 }
 
 // mapShapes: key/value-index lists into (x, xa, y) in insertion order; nil = nil/zero map
@@ -573,7 +642,15 @@ func goMapOf[T any](k *inst[T]) *inst[map[string]T] {
 		return "map"
 	}
 	n := newNode("GoMap", mk, mapRef(k.n, get), mapShow(k.n, get, kind), k.n)
-	return finish[map[string]T](n, eq.GoMap[string](k.eq), nil)
+	n.mut = func(v any, pick int) bool { // m["a"] = x or y of the value type (same map)
+		m := v.(map[string]T)
+		if m == nil {
+			return false
+		}
+		m["a"] = k.n.freshReps().at(2 * pick).(T)
+		return true
+	}
+	return finish[map[string]T](n, func() fp.Eq[map[string]T] { return eq.GoMap[string](k.mkEq()) }, nil)
 }
 
 // fpMapNode: the values of fp.Map[string,T]. With hamt=false every map grows from the zero
@@ -618,13 +695,13 @@ func fpMapNode[T any](k *node, empty func() fp.Map[string, T]) *node {
 
 func fpMapOf[T any](k *inst[T]) *inst[fp.Map[string, T]] {
 	n := fpMapNode[T](k.n, func() fp.Map[string, T] { return fp.MakeMap[string, T](fp.UnsafeGoMap[string, T]{}) })
-	return finish[fp.Map[string, T]](n, eq.FpMap[string](k.eq), nil)
+	return finish[fp.Map[string, T]](n, func() fp.Eq[fp.Map[string, T]] { return eq.FpMap[string](k.mkEq()) }, nil)
 }
 
 func fpMapHamtOf[T any](k *inst[T]) *inst[fp.Map[string, T]] {
 	n := fpMapNode[T](k.n, func() fp.Map[string, T] { return immutable.Map[string, T](hash.String) })
 	n.name = "FpMap/hamt(" + k.n.name + ")"
-	return finish[fp.Map[string, T]](n, eq.FpMap[string](k.eq), nil)
+	return finish[fp.Map[string, T]](n, func() fp.Eq[fp.Map[string, T]] { return eq.FpMap[string](k.mkEq()) }, nil)
 }
 
 // product types: split returns the components
@@ -651,6 +728,18 @@ func prodShow(kids []*node, split func(any) []any, open, sep, close string) func
 	}
 }
 
+// prodMut passes a write to the first component that has a mutable referent.
+func prodMut(kids []*node, split func(any) []any) func(v any, pick int) bool {
+	return func(v any, pick int) bool {
+		for j, c := range split(v) {
+			if j < len(kids) && kids[j].doMut(c, pick) {
+				return true
+			}
+		}
+		return false
+	}
+}
+
 func tuple1Of[T any](k *inst[T]) *inst[fp.Tuple1[T]] {
 	mk := func() []any {
 		var dom []any
@@ -662,11 +751,12 @@ func tuple1Of[T any](k *inst[T]) *inst[fp.Tuple1[T]] {
 	split := func(v any) []any { return []any{v.(fp.Tuple1[T]).I1} }
 	kids := []*node{k.n}
 	n := newNode("Tuple1", mk, prodRef(kids, split), prodShow(kids, split, "(", ",", ")"), kids...)
-	var h fp.Hashable[fp.Tuple1[T]]
-	if k.hash != nil {
-		h = hash.Tuple1(k.hash)
+	n.mut = prodMut(kids, split)
+	var mh func() fp.Hashable[fp.Tuple1[T]]
+	if k.mkHash != nil {
+		mh = func() fp.Hashable[fp.Tuple1[T]] { return hash.Tuple1(k.mkHash()) }
 	}
-	return finish(n, eq.Tuple1(k.eq), h)
+	return finish(n, func() fp.Eq[fp.Tuple1[T]] { return eq.Tuple1(k.mkEq()) }, mh)
 }
 
 var pairShapes = [][2]int{{0, 0}, {0, 1}, {1, 0}, {0, 2}, {2, 0}, {2, 2}, {1, 2}, {2, 1}}
@@ -683,11 +773,12 @@ func tuple2Of[T any](k *inst[T]) *inst[fp.Tuple2[T, T]] {
 	split := func(v any) []any { t := v.(fp.Tuple2[T, T]); return []any{t.I1, t.I2} }
 	kids := []*node{k.n, k.n}
 	n := newNode("Tuple2", mk, prodRef(kids, split), prodShow(kids, split, "(", ",", ")"), kids...)
-	var h fp.Hashable[fp.Tuple2[T, T]]
-	if k.hash != nil {
-		h = hash.Tuple2(k.hash, k.hash)
+	n.mut = prodMut(kids, split)
+	var mh func() fp.Hashable[fp.Tuple2[T, T]]
+	if k.mkHash != nil {
+		mh = func() fp.Hashable[fp.Tuple2[T, T]] { return hash.Tuple2(k.mkHash(), k.mkHash()) }
 	}
-	return finish(n, eq.Tuple2(k.eq, k.eq), h)
+	return finish(n, func() fp.Eq[fp.Tuple2[T, T]] { return eq.Tuple2(k.mkEq(), k.mkEq()) }, mh)
 }
 
 func hconsOf[T any](k *inst[T], nilI *inst[hlist.Nil]) *inst[hlist.Cons[T, hlist.Nil]] {
@@ -701,11 +792,12 @@ func hconsOf[T any](k *inst[T], nilI *inst[hlist.Nil]) *inst[hlist.Cons[T, hlist
 	split := func(v any) []any { c := v.(hlist.Cons[T, hlist.Nil]); return []any{c.Head(), hlist.Tail(c)} }
 	kids := []*node{k.n, nilI.n}
 	n := newNode("HCons", mk, prodRef(kids, split), prodShow(kids, split, "", "::", ""), kids...)
-	var h fp.Hashable[hlist.Cons[T, hlist.Nil]]
-	if k.hash != nil {
-		h = hash.HCons(k.hash, nilI.hash)
+	n.mut = prodMut(kids, split)
+	var mh func() fp.Hashable[hlist.Cons[T, hlist.Nil]]
+	if k.mkHash != nil {
+		mh = func() fp.Hashable[hlist.Cons[T, hlist.Nil]] { return hash.HCons(k.mkHash(), nilI.mkHash()) }
 	}
-	return finish(n, eq.HCons(k.eq, nilI.eq), h)
+	return finish(n, func() fp.Eq[hlist.Cons[T, hlist.Nil]] { return eq.HCons(k.mkEq(), nilI.mkEq()) }, mh)
 }
 
 // box is the source type of ContraMap: tag is ignored by the getter, so boxes with equal v and
@@ -729,11 +821,12 @@ func contraMapOf[T any](k *inst[T]) *inst[box[T]] {
 	ref := func(a, b any) bool { return k.n.ref(a.(box[T]).v, b.(box[T]).v) }
 	show := func(v any) string { b := v.(box[T]); return fmt.Sprintf("box{%s #%d}", k.n.show(b.v), b.tag) }
 	n := newNode("ContraMap", mk, ref, show, k.n)
-	var h fp.Hashable[box[T]]
-	if k.hash != nil {
-		h = hash.ContraMap(k.hash, unbox[T])
+	n.mut = func(v any, pick int) bool { return k.n.doMut(v.(box[T]).v, pick) }
+	var mh func() fp.Hashable[box[T]]
+	if k.mkHash != nil {
+		mh = func() fp.Hashable[box[T]] { return hash.ContraMap(k.mkHash(), unbox[T]) }
 	}
-	return finish(n, eq.ContraMap(k.eq, unbox[T]), h)
+	return finish(n, func() fp.Eq[box[T]] { return eq.ContraMap(k.mkEq(), unbox[T]) }, mh)
 }
 
 // ---------- closure of the grammar to a depth bound. expand2 -> expand1 -> expand0 are three
